@@ -277,12 +277,18 @@ def cargo_build(ctx, release=False, bin=None):
     env = {"RUSTFLAGS": "--cfg " + GUARD}
     bin = bin or ctx.pid.lower()
     cmd = ["cargo", "build", "--offline", "--quiet", "--bin", bin] + (["--release"] if release else [])
-    with Lock("cargo"):
+    target = os.path.join(CACHE, "target")
+    if os.path.realpath(REPO) != "/repo":
+        # checking a scratch copy of the repository (seeded-change runs): override the path
+        # dependency and keep the build output apart from the main cache
+        target = os.path.join(CACHE, "target_alt")
+        cmd += ["--config", 'paths=["%s/dds","%s/dds_gen","%s/dds_derive"]' % (REPO, REPO, REPO), "--target-dir", target]
+    with Lock("cargo" if target.endswith("target") else "cargo_alt"):
         rc, out = sh(cmd, cwd=HARNESS, timeout=3000, env=env)
     if rc != 0:
         ctx.log.append(out[-4000:])
         return None, out
-    return os.path.join(CACHE, "target", "release" if release else "debug", bin), out
+    return os.path.join(target, "release" if release else "debug", bin), out
 
 
 def run_harness(binary, sub, lines, shards=NPROC, timeout=900, extra_args=()):
